@@ -226,6 +226,13 @@ func New(cfg tr.M, sf quickfix.MessageStoreFactory, id quickfix.SessionID) (*Dri
 	if bs == 50 {
 		ss.Set(config.DefaultApplVerID, "FIX.5.0SP2")
 	}
+	if cfgBool(cfg, "schedule") {
+		// a daily window of four hours around the real clock (UTC): every entry point that looks at
+		// time.Now() finds itself in the window in which the store was created
+		now := time.Now().UTC()
+		ss.Set(config.StartTime, now.Add(-2*time.Hour).Format("15:04:05"))
+		ss.Set(config.EndTime, now.Add(2*time.Hour).Format("15:04:05"))
+	}
 	if cfgBool(cfg, "resetSeqTime") {
 		ss.Set(config.ResetSeqTime, "12:00:00") // UTC; the ResetTick event moves the clock across it
 	}
@@ -685,6 +692,17 @@ func (d *Driver) Step(ev tr.M) (row tr.M) {
 		case "Send":
 			err := d.V.Send(AppMsg(tr.Map(ev, "a")))
 			row["sendErr"] = err != nil
+		case "TimeTick":
+			// the ticker's schedule check with an instant in the current window, outside any window, or in
+			// tomorrow's window
+			now := time.Now().UTC()
+			switch tr.Str(ev, "e") {
+			case "out":
+				now = now.Add(6 * time.Hour)
+			case "next":
+				now = now.Add(24 * time.Hour)
+			}
+			d.V.Tick(now)
 		case "ResetTick":
 			// what the run loop's ticker does, a second before and a second after 12:00:00 UTC of a new day
 			d.tickDay++
